@@ -6,7 +6,9 @@ import (
 	"os"
 	"regexp"
 	"strconv"
+	"runtime"
 	"strings"
+	"sync"
 	"sync/atomic"
 	"time"
 
@@ -120,37 +122,55 @@ func (r scanRes) canon() string {
 	return b.String()
 }
 
-// watchdog: a scan that does not return within the budget is a hang (termination clause).
-var (
-	curCase  atomic.Value // string
-	curStart atomic.Int64
-)
+// a scan that does not return within the budget is a hang (termination clause): the watchdog
+// records it and ends the run (the stuck goroutine cannot be stopped).
+type slot struct {
+	id    atomic.Value // string
+	start atomic.Int64
+}
+
+var slots [64]slot
 
 func startWatchdog(w *out.W, budget time.Duration) {
 	go func() {
 		for {
 			time.Sleep(500 * time.Millisecond)
-			st := curStart.Load()
-			if st != 0 && time.Since(time.Unix(0, st)) > budget {
-				id, _ := curCase.Load().(string)
-				w.Violation(id, "hang", fmt.Sprintf("scan did not return within %s", budget))
-				w.Close()
-				fmt.Fprintln(os.Stderr, "hang on case", id)
-				os.Exit(0)
+			for i := range slots {
+				st := slots[i].start.Load()
+				if st != 0 && time.Since(time.Unix(0, st)) > budget {
+					id, _ := slots[i].id.Load().(string)
+					wmu.Lock()
+					w.Violation(strings.Fields(id)[0], "hang", fmt.Sprintf("scan did not return within %s: %s", budget, id))
+					w.Close()
+					fmt.Fprintln(os.Stderr, "hang on case", id)
+					os.Exit(0)
+				}
 			}
 		}
 	}()
 }
 
-type runner struct {
-	w     *out.W
-	n     int
-	seen  map[string]struct{}
-	slowN int
+var wmu sync.Mutex
+
+type job struct {
+	id, tag string
+	os      optSet
+	input   string
+	// results
+	obs   string
+	r     scanRes
+	viols [][2]string
+	extra bool
 }
 
-// one case: option set x input. Records the observation, cross-checks the driver entry
-// point against Scanner{dumped options}, evaluates the oracle on driver option sets.
+type runner struct {
+	w    *out.W
+	n    int
+	seen map[string]struct{}
+	q    []*job
+}
+
+// run enqueues one case: option set x input.
 func (rn *runner) run(tag string, os optSet, input string) {
 	key := os.name + "\x00" + input
 	if _, dup := rn.seen[key]; dup {
@@ -158,46 +178,84 @@ func (rn *runner) run(tag string, os optSet, input string) {
 	}
 	rn.seen[key] = struct{}{}
 	rn.n++
-	id := fmt.Sprintf("%s%d", tag, rn.n)
-	curCase.Store(id + " " + os.name + " " + hx(input))
-	curStart.Store(time.Now().UnixNano())
-	r := scanSafe(scanWith(os.o), input)
-	curStart.Store(0)
-	obs := r.canon()
-	rn.w.Case(id, bits(os.o)+" "+hx(input), []string{obs})
-	rn.w.Count("opts/" + os.name)
-	rn.w.Count("gen/" + tag)
-	switch {
-	case r.panicked:
-		rn.w.Count("out/panic")
-	case r.err != nil:
-		rn.w.Count("out/" + strings.Fields(obs)[1])
-	default:
-		k := len(r.stmts)
-		if k > 3 {
-			k = 3
-		}
-		rn.w.Count(fmt.Sprintf("out/ok-%d+", k))
+	rn.q = append(rn.q, &job{id: fmt.Sprintf("%s%d", tag, rn.n), tag: tag, os: os, input: input})
+	if len(rn.q) >= 100000 {
+		rn.flush()
 	}
-	if len(r.stmts) > 0 || r.err != nil || r.panicked {
-		rn.w.NonTrivial(key)
-	}
-	if !os.driver {
-		if vs := oracle(os, input, r); len(vs) > 0 {
-			rn.w.Count("extra-opts-oracle-fail (not a property violation: option set unused by drivers)")
-		}
+}
+
+// exec runs the real scanner on one case, cross-checks the driver entry point against
+// Scanner{dumped options} and evaluates the oracle (driver option sets only).
+func (j *job) exec(sl *slot) {
+	sl.id.Store(j.id + " " + j.os.name + " " + hx(j.input))
+	sl.start.Store(time.Now().UnixNano())
+	defer sl.start.Store(0)
+	j.r = scanSafe(scanWith(j.os.o), j.input)
+	j.obs = j.r.canon()
+	vs := oracle(j.os, j.input, j.r)
+	if !j.os.driver {
+		j.extra = len(vs) > 0
 		return
 	}
-	// the real entry point must behave as Scanner{dumped options}
-	if e := driverEntry(os.name); e != nil {
-		if r2 := scanSafe(e, input); r2.canon() != obs {
-			rn.w.Violation(id, "entry-mismatch", fmt.Sprintf("%s entry point returns %q, Scanner with dumped options %q on %q", os.name, r2.canon(), obs, input))
+	j.viols = vs
+	if e := driverEntry(j.os.name); e != nil {
+		if r2 := scanSafe(e, j.input); r2.canon() != j.obs {
+			j.viols = append(j.viols, [2]string{"entry-mismatch", fmt.Sprintf("entry point returns %q, Scanner with the dumped options %q", r2.canon(), j.obs)})
 		}
 	}
-	if r.dur > 2*time.Second {
-		rn.w.Violation(id, "hang", fmt.Sprintf("scan of %d bytes took %s (opts %s) input=%q", len(input), r.dur, os.name, input))
+	if j.r.dur > 5*time.Second {
+		j.viols = append(j.viols, [2]string{"hang", fmt.Sprintf("scan of %d bytes took %s", len(j.input), j.r.dur)})
 	}
-	for _, v := range oracle(os, input, r) {
-		rn.w.Violation(id, v[0], fmt.Sprintf("opts=%s input=%q: %s", os.name, input, v[1]))
+}
+
+func (rn *runner) flush() {
+	nw := runtime.GOMAXPROCS(0)
+	if nw > len(slots) {
+		nw = len(slots)
 	}
+	var wg sync.WaitGroup
+	var next atomic.Int64
+	for k := 0; k < nw; k++ {
+		wg.Add(1)
+		go func(k int) {
+			defer wg.Done()
+			for {
+				i := int(next.Add(1)) - 1
+				if i >= len(rn.q) {
+					return
+				}
+				rn.q[i].exec(&slots[k])
+			}
+		}(k)
+	}
+	wg.Wait()
+	wmu.Lock()
+	defer wmu.Unlock()
+	for _, j := range rn.q {
+		rn.w.Case(j.id, bits(j.os.o)+" "+hx(j.input), []string{j.obs})
+		rn.w.Count("opts/" + j.os.name)
+		rn.w.Count("gen/" + j.tag)
+		switch {
+		case j.r.panicked:
+			rn.w.Count("out/panic")
+		case j.r.err != nil:
+			rn.w.Count("out/" + strings.Fields(j.obs)[1])
+		default:
+			k := len(j.r.stmts)
+			if k > 3 {
+				k = 3
+			}
+			rn.w.Count(fmt.Sprintf("out/ok-%d+", k))
+		}
+		if len(j.r.stmts) > 0 || j.r.err != nil || j.r.panicked {
+			rn.w.NonTrivial(j.os.name + "\x00" + j.input)
+		}
+		if j.extra {
+			rn.w.Count("extra-opts-oracle-fail (not a property violation: option set unused by drivers)")
+		}
+		for _, v := range j.viols {
+			rn.w.Violation(j.id, v[0], fmt.Sprintf("opts=%s input=%q (hex %s): %s", j.os.name, j.input, hx(j.input), v[1]))
+		}
+	}
+	rn.q = rn.q[:0]
 }
